@@ -4,13 +4,16 @@ from tools.props import c05
 from tools.lv import unhex
 
 LEVEL = "proof"
+RETRY_TIMING = True
 CORRESPONDENCE = ("Model/Client.lean (chooseMech, authFirstLine, mechResponse, challengeAnswer, authLoop, auth), Model/Base64.lean vs "
                   "SmtpConnection::auth / AsyncSmtpConnection::auth, Auth, Mechanism::response, Credentials over the scripted peer")
 RULE = ("auth cases: user names / passwords (empty, NUL, non-ASCII, CR/LF, 1 KiB) x AUTH advertisements (subsets of PLAIN, LOGIN, XOAUTH2, "
         "unknown mechanisms, any order / case, 0..2 AUTH lines, `AUTH=PLAIN`) x all preference lists x challenge scripts (prompt "
         "spelling variants in any letter case, invalid base64, non-UTF-8, unknown prompts, empty 334, 9..13 challenges in a row, "
         "4xx/5xx/garbage/close at each step) x programs A, AQ, AS; sync and tokio alternating; plus all subsets of offered "
-        "mechanisms x all preference lists of length <= 3 (exhaustive). Non-trivial = a mechanism is chosen and at least one "
+        "mechanisms x all preference lists of length <= 3 (exhaustive); urlcred: connection URLs carrying credentials, well-formed and refused "
+        "(unknown scheme / tls parameter, bad port, percent-encoded non-UTF-8 in user name or password, no host), the error and Debug text "
+        "searched for every spelling of the secret. Non-trivial = a mechanism is chosen and at least one "
         "challenge is sent, or none is offered; distinct = distinct case lines.")
 TRUSTED_BASE = c05.TRUSTED_BASE + ["Spec/AuthSpec.lean (PLAIN / LOGIN / XOAUTH2 wire formats)", "Base64 model: dec (enc x) = some x is proved; "
                                    "enc/dec are tied to the base64 crate through every AUTH line of the correspondence"]
@@ -35,21 +38,66 @@ def gen(tier, rng):
                              smtpgen.step(b"221 bye\r\n")]
                     cases.append(smtpgen.client_case("sa"[i % 2], "c.example", "AQ", "a@b.c", ["x@y.z"], b"m", "".join(prefs), "user", "secretpw", steps))
                     i += 1
+    cases += urlcred_cases(rng, {"quick": 150, "search": 500, "thorough": 3000}[tier])
     return cases
+
+
+def urlcred_cases(rng, n):
+    """connection URLs with credentials: well-formed ones and ones `from_url` refuses (unknown scheme or tls parameter, bad
+    port, percent-encoded octets that are not UTF-8 in the user name or the password, no host): no spelling of the password
+    or of the secret user name may appear in the error text or in the builder's Debug text"""
+    from tools.lv import hexs
+    out = []
+
+    def pct(b):
+        return "".join(chr(c) if (48 <= c < 58 or 65 <= c < 91 or 97 <= c < 123) else "%%%02X" % c for c in b)
+    for i in range(n):
+        pw = bytes(rng.choice(b"abcdefXYZ0189 :/@%#?&=\xc3\xa9") for _ in range(rng.randint(4, 12)))
+        if rng.random() < 0.5:
+            pw = pw.replace(b"\xc3", b"s").replace(b"\xa9", b"t")
+        user = rng.choice([b"user", b"u@example.org", b"hunter" + bytes([rng.randrange(97, 123)]) * 3])
+        raw_pw, raw_user = pct(pw), pct(user)
+        kind = rng.choice(["ok", "ok", "scheme", "tlsparam", "port", "baduserpct", "badpwpct", "nohost", "smtps", "starttls"])
+        if kind == "baduserpct":
+            raw_user = raw_user + "%FF"
+        if kind == "badpwpct":
+            raw_pw = raw_pw + rng.choice(["%FF", "%C3", "%E2%82"])
+        scheme = {"scheme": rng.choice(["http", "imap", "smtpx"]), "smtps": "smtps"}.get(kind, "smtp")
+        host = "" if kind == "nohost" else "mail.example.org"
+        port = {"port": ":99999"}.get(kind, rng.choice(["", ":2525"]))
+        q = {"tlsparam": "?tls=bogus", "starttls": "?tls=required"}.get(kind, "")
+        url = f"{scheme}://{raw_user}:{raw_pw}@{host}{port}/client.example{q}"
+        secrets = [pw, raw_pw.encode()]
+        if user.startswith(b"hunter"):
+            secrets += [user]
+        out.append("urlcred\t" + hexs(url) + "\t" + ",".join(hexs(x) for x in dict.fromkeys(secrets)))
+    return out
+
+
+def timing_dependent(case):
+    # a real client against a real peer with read timeouts: a disagreement is re-run alone before it counts
+    return case.split("\t")[0] in ("pool", "wstall", "client", "tls", "sched")
 
 
 def nontrivial(case):
     f = case.split("\t")
+    if f[0] == "urlcred":
+        return True
     return "333334" in f[10] or f[7] == "-" or ":c" in f[10]
 
 
 def shrinkable(case):
+    if case.startswith("urlcred"):
+        return []
     return [8, 9]
 
 
 def distribution(cases):
-    d = c05.distribution(cases)
+    d = c05.distribution([c for c in cases if not c.startswith("urlcred")])
     for c in cases:
         f = c.split("\t")
+        if f[0] == "urlcred":
+            d["urlcred"] = d.get("urlcred", 0) + 1
+            continue
         d["prefs_" + f[7]] = d.get("prefs_" + f[7], 0) + 1
     return d
